@@ -50,6 +50,7 @@ MC_CFG = """CONSTANTS
   MaxFrames = %(F)d
   MaxCancels = %(C)d
   Fixes = %(Fixes)s
+  CfgSet <- %(CfgSet)s
 SPECIFICATION %(spec)s
 INVARIANTS %(invs)s
 CHECK_DEADLOCK FALSE
@@ -96,7 +97,8 @@ def prepare_specs(ctx, fixes):
     return d
 
 
-def mc(ctx, name, N, MaxConn, F, C, fixes, invs, spec="Spec", timeout=2400, count=True, workers=None, simulate=None):
+def mc(ctx, name, N, MaxConn, F, C, fixes, invs, spec="Spec", timeout=2400, count=True, workers=None, simulate=None,
+       cfgset="Configs"):
     d = ctx.path("mc-" + name)
     os.makedirs(d, exist_ok=True)
     for f in ("WSMux.tla", "MC_WSMux.tla"):
@@ -104,7 +106,7 @@ def mc(ctx, name, N, MaxConn, F, C, fixes, invs, spec="Spec", timeout=2400, coun
             dst.write(src.read())
     cfg = "MC_WSMux_%s.cfg" % name
     with open(os.path.join(d, cfg), "w") as f:
-        f.write(MC_CFG % {"N": N, "MaxConn": MaxConn, "F": F, "C": C, "Fixes": tla_set(fixes),
+        f.write(MC_CFG % {"N": N, "MaxConn": MaxConn, "F": F, "C": C, "Fixes": tla_set(fixes), "CfgSet": cfgset,
                           "spec": spec, "invs": " ".join(invs)})
     if simulate:
         return ctx.tlc(d, "MC_WSMux", cfg, timeout=timeout, deadlock=False, count=count, tag="mc-" + name + "-simulate",
@@ -172,9 +174,16 @@ def tokens(b):
             n = len([m for m in conns[i][2] if m not in cancelled]) if 0 <= i < len(conns) else 0
             if 0 <= i < len(conns):
                 conns[i][1] = {"Upgrade": "gate_ack", "Ack": "open"}.get(a, "dead")
-            toks.append("%s:%d" % (a, min(n, 2)))
+            toks.append("%s%s:%d" % (a, st.get("k", ""), min(n, 2)))
         elif a == "Send":
-            toks.append("Send-%s:%s" % (st["k"], "late" if s_ in cancelled else "live"))
+            toks.append("Send-%s%s:%s" % (st["k"], st.get("v", "-"), "late" if s_ in cancelled else "live"))
+        elif a == "Mute":
+            i = c_ - 1
+            n = len([m for m in conns[i][2] if m not in cancelled]) if 0 <= i < len(conns) else 0
+            others = len([1 for j, c in enumerate(conns) if j != i and c[1] == "open" and [m for m in c[2] if m not in cancelled]])
+            if 0 <= i < len(conns):
+                conns[i][1] = "dead"
+            toks.append("Mute:%d:others%d" % (min(n, 2), min(others, 1)))
         else:
             toks.append(a)
     return toks
@@ -185,6 +194,10 @@ def features(b):
     (per idle mode).  Used to pick a sample in which every outcome and local pattern the generator produced occurs."""
     toks = tokens(b)
     out = set()
+    if any(b.get("bad") or []):
+        called = [st["s"] for st in b["steps"] if st["a"] == "Call"]
+        out.add(("bad", b["idle"], tuple(x in called for x, bad in enumerate(b["bad"], 1) if bad)))
+        toks = ["bad"] + toks
     for e in b.get("exp") or []:
         out.add(("out", b["idle"], e.get("pc"), e.get("err"), e.get("blame"), min(len(e.get("h") or []), 2)))
     for n in (1, 2, 3):
@@ -235,14 +248,23 @@ def select(beh, cap, rng):
 def to_schedule(idx, b, rng, mode="ws"):
     n = len(b["key"])
     proto = rng.choice(["gtws", "gtws", "gws", "gws", "auto"])
-    variant = rng.choice(["endpoint", "hdr", "proto", "payload", "nopayload"])
+    variant = rng.choice(["endpoint", "hdr", "proto", "payload", "nopayload",
+                          "payload-type", "payload-bool", "payload-split", "payload-nested"])
+    if b.get("ping"):
+        # only graphql-transport-ws has client pings: every connection of the schedule must speak it
+        proto = rng.choice(["gtws", "auto"])
+        if variant == "proto" and proto == "gtws":
+            variant = "payload-type"
     if mode == "sse":
         proto = rng.choice(["post", "get"])
         variant = rng.choice(["endpoint", "hdr"])
     # every fourth schedule goes through the data-source wrapper (graphql_subscription_client.go); it has no idle timeout
     level = "ds" if b["idle"] == "zero" and rng.random() < 0.25 else "client"
+    if mode == "sse":
+        variant = rng.choice(["endpoint", "hdr"])
     return {"id": "%s%d-%06d" % (mode, n, idx), "mode": mode, "level": level, "proto": proto, "variant": variant,
-            "idle_ms": 0 if b["idle"] == "zero" else IDLE_MS, "key": b["key"], "dialler": b["dialler"], "reach": b.get("reach"),
+            "idle_ms": 0 if b["idle"] == "zero" else IDLE_MS, "key": b["key"], "bad": b.get("bad") or [False] * n, "ping": bool(b.get("ping")),
+            "dialler": b["dialler"], "reach": b.get("reach"),
             "steps": b["steps"], "expect": b.get("exp")}
 
 
@@ -456,6 +478,9 @@ def _run(ctx):
             # the fully repaired protocol satisfies everything (slow upstream; full interleaving measured in design.d/C18.md)
             jobs["fixed"] = pool.submit(mc, ctx, "fixed", 2, 3, 2, 2, set(INV_OF_FIX),
                                         INVS + ["CancelIsolated", "NoStaleEntry", "AllTracked"], spec="SpecQ", workers=4)
+    # requests that cannot be encoded, client pings with an upstream that stops answering (slow upstream)
+    jobs["mcx"] = pool.submit(mc, ctx, "x", 2, mcn, 1 if quick else 2, 1 if quick else 2, fixes, pos, spec="SpecQ", workers=4,
+                              cfgset="ConfigsX")
     # the pinned protocol violates CancelIsolated in exactly the recorded shapes (the specification is not vacuous)
     for inv in NEGATIVE:
         jobs["neg-" + inv] = pool.submit(mc, ctx, "neg-" + inv, 2, 2, 1, 2, set(), [inv], count=False, workers=2, timeout=600)
@@ -480,14 +505,31 @@ def _run(ctx):
             raise lib.Inconclusive("generator run failed: %s" % g.error)
     uniq = {}
     for b in g2.printed + g3.printed:
-        uniq.setdefault(lib.sha([b["key"], b["idle"], b["steps"]]), b)
+        uniq.setdefault(lib.sha([b["key"], b["idle"], b.get("bad"), b.get("ping"), b["steps"]]), b)
     beh = sorted(uniq.values(), key=lambda b: lib.sha(b))
     rng.shuffle(beh)
     n_int = sum(1 for b in beh if interesting(b))
-    chosen, npat = select(beh, 500 if quick else 12000, rng)
+    # three strata so that the extra configurations do not crowd out the plain ones
+    cap = 500 if quick else 12000
+    strata = [([b for b in beh if not any(b.get("bad") or []) and not b.get("ping")], cap * 68 // 100),
+              ([b for b in beh if any(b.get("bad") or [])], cap * 17 // 100),
+              ([b for b in beh if b.get("ping") and any(st["a"] == "Mute" for st in b["steps"])], cap * 11 // 100),
+              ([b for b in beh if b.get("ping") and not any(st["a"] == "Mute" for st in b["steps"])], cap * 4 // 100)]
+    chosen, npat = [], 0
+    for part, k in strata:
+        c, n = select(part, k, rng) if part else ([], 0)
+        chosen += c
+        npat += n
     ctx.log("generated %d distinct behaviours (%d interesting: >= 2 subscribers of one key + a cancel/frame/fault); %d chosen "
             "covering %d local patterns" % (len(beh), n_int, len(chosen), npat))
     scheds = [to_schedule(i, b, rng) for i, b in enumerate(chosen)]
+    ctx.log("classes in the sample: %d with an un-encodable request, %d with pings (%d Mute), %d with >= 2 next frames of different "
+            "field sets, %d close frames with a code, %d look-alike init payload pairs" % (
+                sum(1 for x in scheds if any(x["bad"])), sum(1 for x in scheds if x["ping"]),
+                sum(1 for x in scheds if any(st["a"] == "Mute" for st in x["steps"])),
+                sum(1 for x in scheds if len({st.get("v") for st in x["steps"] if st["a"] == "Send" and st["k"] == "next"}) >= 2),
+                sum(1 for x in scheds if any(st["a"] == "Close" and st["k"] for st in x["steps"])),
+                sum(1 for x in scheds if x["variant"].startswith("payload-") and len(set(x["key"])) > 1)))
     gs = [jobs["gensse"].result()] + ([jobs["gensse3"].result()] if not quick else [])
     usse = {}
     for g in gs:
@@ -537,7 +579,7 @@ def _run(ctx):
 
     if unreal:
         ctx.notes.append("%d schedules contained a step the real code could not take as scheduled (validated anyway)" % unreal)
-    distinct = {lib.sha([s["mode"], s["level"], s["proto"], s["variant"], s["idle_ms"], s["key"], s["steps"]]) for s in allsched
+    distinct = {lib.sha([s["mode"], s["level"], s["proto"], s["variant"], s["idle_ms"], s["key"], s["bad"], s["ping"], s["steps"]]) for s in allsched
                 if sum(1 for x in s["steps"] if x["a"] == "Call") >= 2 and any(x["a"] != "Call" for x in s["steps"])}
     sample_ids = [s["id"] for s in (scheds[:2] + sse[:1])]
     ctx.coverage.update({
@@ -563,6 +605,7 @@ def _run(ctx):
         "no source hook: only environment actions are scheduled (Subscribe, ctx cancel, server gates, frames); the code's internal "
         "steps run freely between two environment actions and are composed silently by the trace specification",
         "quiescence = no TCP byte/close in flight on any wrapped connection and no runnable goroutine (two consecutive samples)",
-        "ack/write timeouts 2 min, pings off: only scripted events expire; idle timeout 0 or %d ms, waited for with slack and one retry" % IDLE_MS,
+        "ack/write timeouts 2 min; pings off except in the ping configurations (every 300 ms, pong timeout 100 ms, the server answers "
+        "at once until a Mute step); idle timeout 0 or %d ms, waited for with slack and one retry" % IDLE_MS,
         "the upstream server fake and TLC are trusted; <= 3 subscribers, 2 option tuples, <= 3 frames per schedule",
     ]
